@@ -703,6 +703,237 @@ theorem fold_cap (u : Univ) : ∀ (ops : List Op) (s : St), s.b.a.capacity ≤ (
  | [], _ => Nat.le_refl _
  | op :: ops, s => Nat.le_trans (step_cap u s op) (fold_cap u ops (step u s op))
 
+/-! ### frame: which live regions an operation may change -/
+
+/-- every byte of the region of `e` is as before -/
+def Unchanged (s s' : St) (e : Ent) : Prop := ∀ i, e.addr ≤ i → i < e.addr + e.size → s'.b.mem[i]? = s.b.mem[i]?
+
+theorem unchanged_refl (s : St) (e : Ent) : Unchanged s s e := fun _ _ _ => rfl
+
+/-- a write inside one live entry leaves every other live entry as it was -/
+theorem wr_frame {u : Univ} {s : St} (hi : Inv u s) {e0 : Ent} (he0 : e0 ∈ s.live) (x : Nat) (bs : List UInt8)
+    (h1 : e0.addr ≤ x) (h2 : x + bs.length ≤ e0.addr + e0.size) :
+    ∀ e ∈ s.live, e ≠ e0 → Unchanged s (wr s x bs) e := by
+  intro e he hne i hi1 hi2
+  have hin := hi.a.inb (e0.addr, e0.size) (List.mem_map.mpr ⟨e0, he0, rfl⟩)
+  have hmm := hi.mem
+  unfold Buf.MemOK at hmm
+  simp only at hin
+  simp only [wr]
+  rw [getElem?_writeAt _ _ _ (by omega)]
+  have hd := live_disj hi he he0 hne i
+  unfold Region.Has at hd
+  simp only at hd
+  have : ¬ (x ≤ i ∧ i < x + bs.length) := by omega
+  simp [this]
+
+/-- an allocation (growth included) leaves every live entry as it was -/
+theorem allocate_frame {u : Univ} {s : St} (hi : Inv u s) {size : Nat} {al : Bool} {o : Nat} {b' : Buf}
+    (hal : s.b.allocate size al = some (o, b')) (bs : List UInt8) (hlen : bs.length = size) (live' : List Ent) :
+    ∀ e ∈ s.live, Unchanged s ⟨{ b' with mem := writeAt b'.mem o bs }, live'⟩ e := by
+  obtain ⟨c1, c4, _, m1, m2⟩ := allocate_spec hi hal
+  intro e he i hi1 hi2
+  have hin := hi.a.inb (e.addr, e.size) (List.mem_map.mpr ⟨e, he, rfl⟩)
+  simp only at hin
+  unfold Buf.MemOK at m1
+  simp only
+  rw [getElem?_writeAt _ _ _ (by omega), hlen]
+  have hd := c4 (e.addr, e.size) (List.mem_map.mpr ⟨e, he, rfl⟩) i
+  unfold Region.Has at hd
+  simp only at hd
+  have : ¬ (o ≤ i ∧ i < o + size) := by omega
+  simp only [this, ↓reduceIte]
+  exact m2 i (by omega)
+
+theorem newObj_frame {u : Univ} {s : St} (hi : Inv u s) (c : Nat) (vs : List Nat) :
+    ∀ e ∈ s.live, Unchanged s (newObj u s c vs).1 e := by
+  unfold newObj
+  split
+  · exact fun e _ => unchanged_refl s e
+  · rename_i cl hcl
+    split
+    · exact fun e _ => unchanged_refl s e
+    · rename_i o b' hal
+      exact allocate_frame hi hal _ (initBytes_length cl vs) _
+
+theorem copyObj_frame {u : Univ} {s : St} (hi : Inv u s) (ha : Nat) :
+    ∀ e ∈ s.live, Unchanged s (copyObj u s ha).1 e := by
+  unfold copyObj
+  repeat' split
+  all_goals first
+    | exact fun e _ => unchanged_refl s e
+    | (rename_i o b' hal; exact allocate_frame hi hal _ (copyBytesF_length _ _ _ _) _)
+
+theorem rawAlloc_frame {u : Univ} {s : St} (hi : Inv u s) (n : Nat) (al : Bool) :
+    ∀ e ∈ s.live, Unchanged s (rawAlloc s n al) e := by
+  unfold rawAlloc
+  split
+  · rename_i o b' hal
+    obtain ⟨_, _, _, _, m2⟩ := allocate_spec hi hal
+    intro e he i _ hi2
+    have hin := hi.a.inb (e.addr, e.size) (List.mem_map.mpr ⟨e, he, rfl⟩)
+    simp only at hin
+    exact m2 i (by omega)
+  · exact fun e _ => unchanged_refl s e
+
+/-- the slot-writing operations: nothing happens, or `bs` (as long as the field) is written at the slot of field `k` of a live node -/
+theorem bindObj_shape (u : Univ) (s : St) (ha k ta : Nat) : bindObj u s ha k ta = s ∨
+    ∃ h fk a bs, findObj s ha = some h ∧ fieldAt u h k = some (fk, a) ∧ bs.length = fk.size ∧ bindObj u s ha k ta = wr s a bs := by
+  unfold bindObj
+  split
+  · rename_i h t hh ht
+    split
+    · rename_i c a tc hf htc
+      split
+      · exact Or.inr ⟨h, _, a, _, hh, hf, by simp [refBytes, i64le_length, FK.size], rfl⟩
+      · exact Or.inl rfl
+    · rename_i cs a tc hf htc
+      split
+      · exact Or.inr ⟨h, _, a, _, hh, hf, by simp [urefBytes, refBytes, i64le_length, FK.size], rfl⟩
+      · exact Or.inl rfl
+    · exact Or.inl rfl
+  · exact Or.inl rfl
+
+theorem bindNull_shape (u : Univ) (s : St) (ha k : Nat) : bindNull u s ha k = s ∨
+    ∃ h fk a bs, findObj s ha = some h ∧ fieldAt u h k = some (fk, a) ∧ bs.length = fk.size ∧ bindNull u s ha k = wr s a bs := by
+  unfold bindNull
+  split
+  · rename_i h hh
+    split
+    · rename_i c a hf
+      exact Or.inr ⟨h, _, a, _, hh, hf, by simp [refNullBytes, i64le_length, FK.size], rfl⟩
+    · rename_i cs a hf
+      exact Or.inr ⟨h, _, a, _, hh, hf, by simp [urefNullBytes, i64le_length, FK.size], rfl⟩
+    · exact Or.inl rfl
+  · exact Or.inl rfl
+
+theorem setScal_shape (u : Univ) (s : St) (ha k v : Nat) : setScal u s ha k v = s ∨
+    ∃ h fk a bs, findObj s ha = some h ∧ fieldAt u h k = some (fk, a) ∧ bs.length = fk.size ∧ setScal u s ha k v = wr s a bs := by
+  unfold setScal
+  split
+  · rename_i h hh
+    split
+    · rename_i a hf
+      exact Or.inr ⟨h, _, a, _, hh, hf, by simp [le_length, FK.size], rfl⟩
+    · exact Or.inl rfl
+  · exact Or.inl rfl
+
+/-- a write through a reference lands in a scalar field of a LIVE node: the referent -/
+theorem setVia_shape {u : Univ} {s : St} (hi : Inv u s) (ha k j v : Nat) : setVia u s ha k j v = s ∨
+    ∃ e x, e ∈ s.live ∧ fieldAt u e j = some (.scal, x) ∧ setVia u s ha k j v = wr s x (le 8 v) := by
+  unfold setVia
+  split
+  · rename_i h hh
+    obtain ⟨hm, _, _⟩ := findObj_spec hh
+    split
+    · rename_i fk a hf
+      split
+      · rename_i t c hd hc
+        obtain ⟨e, he, hea, hec⟩ := deref_live hi hm hf hd hc
+        split
+        · rename_i cl hcl
+          split
+          · rename_i hj
+            have hft := fieldAt_of hec hcl hj
+            rw [hea] at hft
+            exact Or.inr ⟨e, _, he, hft, rfl⟩
+          · exact Or.inl rfl
+        · exact Or.inl rfl
+      · exact Or.inl rfl
+    · exact Or.inl rfl
+  · exact Or.inl rfl
+
+theorem updObj_shape {u : Univ} {s : St} (hi : Inv u s) (ha ta : Nat) : updObj u s ha ta = s ∨
+    ∃ h bs, findObj s ha = some h ∧ bs.length = h.size ∧ updObj u s ha ta = wr s h.addr bs := by
+  unfold updObj
+  split
+  · rename_i h t hh ht
+    obtain ⟨hm, _, _⟩ := findObj_spec hh
+    split
+    · rename_i c c' hc hc'
+      split
+      · split
+        · rename_i cl hcl
+          obtain ⟨cl', hcl', hsz⟩ := hi.wf h hm c hc
+          rw [hcl] at hcl'; cases hcl'
+          exact Or.inr ⟨h, _, hh, by rw [copyBytesF_length, hsz], rfl⟩
+        · exact Or.inl rfl
+      · exact Or.inl rfl
+    · exact Or.inl rfl
+  · exact Or.inl rfl
+
+/-- **an operation changes only the node it is applied to** (for a write through a reference: the referent) **and the storage of
+the nodes it newly creates**: every other live region - node or raw allocation - keeps every byte, across growth too -/
+theorem step_frame {u : Univ} {s : St} (hu : UWF u) (hi : Inv u s) (op : Op) (hcap : (step u s op).b.a.capacity < 2 ^ 62) :
+    ∃ w : Option Ent, (∀ e0, w = some e0 → e0 ∈ s.live) ∧ ∀ e ∈ s.live, w ≠ some e → Unchanged s (step u s op) e := by
+  have none_case : (∀ e ∈ s.live, Unchanged s (step u s op) e) →
+      ∃ w : Option Ent, (∀ e0, w = some e0 → e0 ∈ s.live) ∧ ∀ e ∈ s.live, w ≠ some e → Unchanged s (step u s op) e :=
+    fun h => ⟨none, (fun _ q => by cases q), fun e he _ => h e he⟩
+  have same : step u s op = s → ∃ w : Option Ent, (∀ e0, w = some e0 → e0 ∈ s.live) ∧
+      ∀ e ∈ s.live, w ≠ some e → Unchanged s (step u s op) e :=
+    fun h => none_case (fun e _ => by rw [h]; exact unchanged_refl s e)
+  have wr_case : ∀ (e0 : Ent) (x : Nat) (bs : List UInt8), e0 ∈ s.live → e0.addr ≤ x → x + bs.length ≤ e0.addr + e0.size →
+      step u s op = wr s x bs → ∃ w : Option Ent, (∀ e0, w = some e0 → e0 ∈ s.live) ∧
+      ∀ e ∈ s.live, w ≠ some e → Unchanged s (step u s op) e := by
+    intro e0 x bs he0 h1 h2 heq
+    refine ⟨some e0, (fun _ q => by cases q; exact he0), fun e he hne => ?_⟩
+    rw [heq]
+    exact wr_frame hi he0 x bs h1 h2 e he (fun q => hne (by rw [q]))
+  have slot_case : ∀ (ha k : Nat), (step u s op = s ∨ ∃ h fk a bs, findObj s ha = some h ∧ fieldAt u h k = some (fk, a) ∧
+      bs.length = fk.size ∧ step u s op = wr s a bs) → ∃ w : Option Ent, (∀ e0, w = some e0 → e0 ∈ s.live) ∧
+      ∀ e ∈ s.live, w ≠ some e → Unchanged s (step u s op) e := by
+    rintro ha k (h | ⟨h, fk, a, bs, hh, hf, hl, heq⟩)
+    · exact same h
+    · obtain ⟨hm, _, _⟩ := findObj_spec hh
+      obtain ⟨i1, i2, _⟩ := slot_in hi hm hf
+      exact wr_case h a bs hm i1 (by rw [hl]; exact i2) heq
+  cases op with
+  | new c vs => exact none_case (newObj_frame hi c vs)
+  | copy h => exact none_case (copyObj_frame hi h)
+  | alloc n al => exact none_case (rawAlloc_frame hi n al)
+  | grow n =>
+    apply none_case
+    intro e he i h1 h2
+    obtain ⟨_, m2⟩ := Buf.grow_mem s.b n hi.mem
+    have hin := hi.a.inb (e.addr, e.size) (List.mem_map.mpr ⟨e, he, rfl⟩)
+    simp only at hin
+    exact m2 i (by omega)
+  | bindObj h k t => exact slot_case h k (bindObj_shape u s h k t)
+  | bindNull h k => exact slot_case h k (bindNull_shape u s h k)
+  | setScal h k v => exact slot_case h k (setScal_shape u s h k v)
+  | setVia h k j v =>
+    rcases setVia_shape hi h k j v with e | ⟨e, x, he, hf, heq⟩
+    · exact same e
+    · obtain ⟨i1, i2, _⟩ := slot_in hi he hf
+      exact wr_case e x _ he i1 (by simpa [le_length, FK.size] using i2) heq
+  | upd h t =>
+    rcases updObj_shape hi h t with e | ⟨e, bs, hh, hl, heq⟩
+    · exact same e
+    · obtain ⟨hm, _, _⟩ := findObj_spec hh
+      exact wr_case e e.addr bs hm (Nat.le_refl _) (by rw [hl]; exact Nat.le_refl _) heq
+  | bindVal h k c vs =>
+    rcases bindVal_cases u s h k c vs with e | ⟨e0, fk, a, s1, o, bs, hh, hf, hn, heq, hk⟩
+    · exact same e
+    · obtain ⟨hm, _, _⟩ := findObj_spec hh
+      have hcap1 : s1.b.a.capacity < 2 ^ 62 := by
+        have : step u s (.bindVal h k c vs) = wr s1 a bs := heq
+        rw [this] at hcap; simpa [wr] using hcap
+      obtain ⟨hi1, _, hsub, _⟩ := newObj_spec hi hn hcap1
+      obtain ⟨i1, i2, _⟩ := slot_in hi1 (hsub e0 hm) hf
+      have hlen : bs.length = fk.size := by
+        rcases hk with ⟨rfl, rfl⟩ | ⟨cs, rfl, _, rfl⟩
+        · simp [refBytes, i64le_length, FK.size]
+        · simp [urefBytes, refBytes, i64le_length, FK.size]
+      refine ⟨some e0, (fun _ q => by cases q; exact hm), fun e he hne => ?_⟩
+      have f1 : Unchanged s s1 e := by
+        have := newObj_frame hi c vs e he
+        rwa [hn] at this
+      have f2 : Unchanged s1 (wr s1 a bs) e :=
+        wr_frame hi1 (hsub e0 hm) a bs i1 (by rw [hlen]; exact i2) e (hsub e he) (fun q => hne (by rw [q]))
+      intro i hi1' hi2'
+      have : step u s (.bindVal h k c vs) = wr s1 a bs := heq
+      rw [this, f2 i hi1' hi2', f1 i hi1' hi2']
+
 theorem step_inv {u : Univ} {s : St} (hu : UWF u) (hi : Inv u s) (op : Op)
     (hcap : (step u s op).b.a.capacity < 2 ^ 62) : Inv u (step u s op) := by
   cases op with
